@@ -410,7 +410,7 @@ fn records(section: &str, tier: Tier) -> Vec<String> {
     };
     match section {
         "General" => {
-            kv("AudioFilename", &["audio.mp3", "dir\\a b.mp3", "a:b.mp3", "", "x // c"]);
+            kv("AudioFilename", &["audio.mp3", "dir\\a b.mp3", "a:b.mp3", "", "x // c", "sb/a.mp3 // c", "a/b/c.mp3"]);
             for k in ["AudioLeadIn", "PreviewTime", "SampleVolume", "CountdownOffset"] {
                 kv(k, &num_classes(tier, &[]));
             }
@@ -480,6 +480,8 @@ fn records(section: &str, tier: Tier) -> Vec<String> {
                     "0,a.b",
                     "0,.mp4",
                     "0,a.mp4.png",
+                    "0,\"sb/intro.avi\" // c",
+                    "0,\"sb/bg.png\" // c",
                     "0,vid\u{e9}os",
                     "0,\u{6620}\u{50cf}v2",
                 ] {
